@@ -4,6 +4,7 @@ A recipe is explicit content (not a generator seed), so replay files survive gen
   {"name":..., "inputs":[{"shape","dtype","q":[scale,zp]}], "layers":[{"op":..., "in":[value ids], ...}], "outputs":[ids]}
 Value ids: inputs first, then one id per layer output in order.
 """
+import os
 import math
 
 import numpy as np
@@ -483,6 +484,8 @@ def gen_recipe(r, cfg=None, profile="mixed"):
         L["seed"] = r.randrange(1 << 30)
         if L["op"] in ("CONCATENATION", "SPLIT", "PACK", "UNPACK", "MEAN", "ARG_MAX") and r.random() < 0.25:
             L["axis_neg"] = True  # the same axis written as a negative number
+        if dtype == "int16" and L["op"] in ("CONV_2D", "DEPTHWISE_CONV_2D", "FULLY_CONNECTED", "TRANSPOSE_CONV") and "bias64" not in L:
+            L["bias64"] = r.random() < float(os.environ.get("VERIF_BIAS64_P", 0.65))  # 16x8 kernels exist for 64-bit and for 32-bit bias
         layers.append(L)
         ids = []
         for _ in range(n_out):
